@@ -240,6 +240,8 @@ func genC15(seed uint64, idx int, tier string) *World {
 	}
 	f := faults[fi]
 	io.TruncAt, io.Fault, io.Chunk = f.at, f.kind, f.chunk
+	// some requests were built the way a client builds them and still carry GetBody
+	io.GetBody = []string{"", "", "", "same", "same", "other", "err"}[Mix(seed, uint64(idx)+0x6e7b0d)%7]
 	s := Sentinel(schemaRoot)
 	op.Pre = &s
 	w.Tasks = [][]Op{{op}}
